@@ -20,6 +20,12 @@ each, the list of its control-flow PATHS as sequences of abstract events:
     ECall n              a call of another analysed method on the receiver (self.n(...), super(...).n(...), C.n(self, ...))
     ECallFailed n        the same call inside `try:` on the path through an `except` handler
     ERet                 return
+    (no event)           self._f_ = self._f_.copy() and self._f_ = Qube._array_to_readonly(self._f_): same content
+    EInherit             (derived objects only) obj._cache_ = self._cache_.copy(): the new object, whose fields were
+                         just copied from the receiver, takes over the receiver's cache entries
+
+The number fast paths build their result as `obj = self.clone(..., retain_cache=True); obj._set_values_(...,
+retain_cache=True)`: these methods (DERIVED) and clone() itself are analysed once more with `obj` as the subject.
 
 `if` contributes both branches, a loop zero, one and two iterations of its body, `try/except` (single-statement
 body, handlers that end in raise) the normal path and one path per handler.  Anything outside this subset - an
@@ -75,8 +81,11 @@ CACHE_FREE = {'is_int', 'is_float', 'is_bool', 'dtype', '_opstr', 'require_writa
 MUTATOR_NAMES = set(n for _, _, ns in TARGETS for n in ns)
 
 
+SUBJ = ['self']      # the variable whose object is analysed ('self', or 'obj' for objects derived from a clone)
+
+
 def is_self(n):
-    return isinstance(n, ast.Name) and n.id == 'self'
+    return isinstance(n, ast.Name) and n.id == SUBJ[0]
 
 
 def self_field(n):
@@ -96,8 +105,8 @@ def store_events(target, deleting=False):
     if isinstance(target, ast.Starred):
         return store_events(target.value, deleting)
     if isinstance(target, ast.Name):
-        if target.id == 'self':
-            raise Untranslatable('the receiver is rebound (self = ...)')
+        if target.id == SUBJ[0]:
+            raise Untranslatable('the analysed object is rebound (%s = ...)' % SUBJ[0])
         return []
     base = target
     sub = False
@@ -116,6 +125,8 @@ def store_events(target, deleting=False):
                 return [('EInvKey', CACHE_KEYS[key.value])] if deleting else [('EPure', False)]
             return [('EPure', False)]       # a cached entry is replaced by an equivalent one (as_readonly)
         if f == '__dict__' and sub:
+            if SUBJ[0] != 'self':            # clone(): every attribute is transferred
+                return [('EMut', x) for x in sorted(set(FIELDS.values()))]
             return [('EMut', 'FDerivs')]     # the d_d<key> attributes
         raise Untranslatable('store into self.%s' % f)
     if isinstance(base, ast.Attribute) or isinstance(base, ast.Name):
@@ -148,6 +159,10 @@ def call_events(stmt):
             if on_self or explicit:
                 if name == '_new_values_':
                     ev.append(('EInvVals',))
+                    continue
+                if name == '__init__' and SUBJ[0] != 'self':
+                    ev.append(('EInvFull',))
+                    ev += [('EMut', x) for x in sorted(set(FIELDS.values()))]
                     continue
                 if name == 'require_writable':
                     ev.append(('EReq',))
@@ -213,6 +228,32 @@ def simple(stmt):
         return [('EPure', False)], False
     if isinstance(stmt, (ast.Break, ast.Continue)):
         return [('EBreak',)], False
+    if isinstance(stmt, ast.Assign) and len(stmt.targets) == 1:
+        t, v = stmt.targets[0], stmt.value
+        if isinstance(t, ast.Name) and t.id == SUBJ[0] and SUBJ[0] != 'self':
+            # the analysed object comes into being
+            if isinstance(v, ast.Call) and isinstance(v.func, ast.Attribute):
+                if v.func.attr == 'clone':
+                    kw = {k.arg: k.value for k in v.keywords}
+                    rc = kw.get('retain_cache')
+                    if isinstance(rc, ast.Constant) and rc.value is True:
+                        return [('ECall', 'clone@retain')], False
+                    if rc is None or (isinstance(rc, ast.Constant) and not rc.value):
+                        return [('EInvFull',)], False
+                    raise Untranslatable('clone with a computed retain_cache')
+                if v.func.attr == '__new__':
+                    return [('EInvFull',)], False
+            raise Untranslatable('%s is bound to %s' % (SUBJ[0], ast.unparse(v)[:60]))
+        f = self_field(t)
+        if f in FIELDS and ast.unparse(v) in ('%s.%s.copy()' % (SUBJ[0], f), 'Qube._array_to_readonly(%s.%s)' % (SUBJ[0], f)):
+            return [('EPure', False)], False     # the same content in a new / read-only array: no view changes
+        if self_field(t) == '_cache_':
+            src = ast.unparse(v)
+            if src == 'self._cache_.copy()' and SUBJ[0] != 'self':
+                return [('EInherit',)], False
+            if src == '{}':
+                return [('EInvFull',)], False
+            raise Untranslatable('cache assigned from %s' % src[:60])
     if isinstance(stmt, (ast.Expr, ast.Assign, ast.AugAssign, ast.AnnAssign, ast.Delete)):
         ev, raises, other = call_events(stmt)
         out = []
@@ -271,8 +312,28 @@ CURRENT = [None]    # class being analysed
 SPEC = {}       # source text of an `if` test -> the branch taken (call-site specialisation of _set_values_)
 
 
+def guarded_delete(st):
+    """`if '<key>' in X._cache_: del X._cache_['<key>']` (X the analysed object) is an unconditional removal of the
+    entry: -> its events, or None"""
+    t = st.test
+    if not (isinstance(t, ast.Compare) and len(t.ops) == 1 and isinstance(t.ops[0], ast.In)
+            and isinstance(t.left, ast.Constant) and isinstance(t.left.value, str)
+            and self_field(t.comparators[0]) == '_cache_' and not st.orelse and len(st.body) == 1):
+        return None
+    d = st.body[0]
+    if not (isinstance(d, ast.Delete) and len(d.targets) == 1 and isinstance(d.targets[0], ast.Subscript)
+            and self_field(d.targets[0].value) == '_cache_' and isinstance(d.targets[0].slice, ast.Constant)
+            and d.targets[0].slice.value == t.left.value):
+        return None
+    k = t.left.value
+    return [('EInvKey', CACHE_KEYS[k])] if k in CACHE_KEYS else [('EPure', False)]
+
+
 def stmt_paths(st):
     if isinstance(st, ast.If):
+        g = guarded_delete(st)
+        if g is not None:
+            return [(g, 'go')]
         c = cond_events(st.test)
         out = []
         src = ast.unparse(st.test)
@@ -363,6 +424,8 @@ def coq_event(e):
         return '(EMut %s)' % e[1]
     if e[0] == 'EInvKey':
         return '(EInvKey %s)' % e[1]
+    if e[0] == 'EInherit':
+        return 'EInherit'
     if e[0] in ('ECall', 'ECallFailed'):
         return '(%s "%s")' % (e[0], e[1])
     return e[0]
@@ -388,6 +451,58 @@ def discover():
     # extension functions are attached to Qube
     DEFINES.setdefault('Qube', set()).update(n for _, c, ns in TARGETS if c is None for n in ns)
     return found
+
+
+# objects derived from a clone that keeps the cache of its source (the number fast paths): (method, subject variable)
+DERIVED = [('__add__', 'obj'), ('__sub__', 'obj'), ('_mul_by_number', 'obj'), ('_div_by_number', 'obj'),
+           ('_floordiv_by_number', 'obj'), ('_mod_by_number', 'obj')]
+
+
+def collect_derived(tree):
+    out = []
+    fn = find_function(tree, 'Qube', 'clone')
+    if fn is None:
+        raise Untranslatable('Qube.clone not found')
+    CURRENT[0] = 'Qube'
+    SUBJ[0] = 'obj'
+    try:
+        if 'retain_cache' not in [ast.unparse(x.test) for x in ast.walk(fn) if isinstance(x, ast.If)]:
+            raise Untranslatable('clone: the cache branch `if retain_cache` was not found')
+        SPEC['retain_cache'] = True
+        out.append(('Qube', 'clone@retain', analyse(fn)))
+        SPEC.clear()
+        n_sites = 0
+        for name, subj in DERIVED:
+            f = find_function(tree, 'Qube', name)
+            if f is None:
+                raise Untranslatable('Qube.%s not found' % name)
+            SUBJ[0] = subj
+            paths = analyse(f)
+            n_sites += sum(1 for p in paths if ('ECall', 'clone@retain') in p)
+            out.append(('Qube', 'derived:' + name, paths))
+        # every clone(retain_cache=True) of the package must be among the analysed sites
+        total = 0
+        import glob
+        for path in glob.glob(os.path.join(REPO, 'polymath', '*.py')) + glob.glob(os.path.join(REPO, 'polymath', 'extensions', '*.py')):
+            for n in ast.walk(ast.parse(open(path).read())):
+                if isinstance(n, ast.Call) and isinstance(n.func, ast.Attribute) and n.func.attr == 'clone':
+                    for k in n.keywords:
+                        if k.arg == 'retain_cache' and not (isinstance(k.value, ast.Constant) and not k.value.value) \
+                                and not (isinstance(k.value, ast.Name) and k.value.id == 'retain_cache'):
+                            total += 1
+        listed = 0
+        for name, subj in DERIVED:
+            f = find_function(tree, 'Qube', name)
+            for n in ast.walk(f):
+                if isinstance(n, ast.Call) and isinstance(n.func, ast.Attribute) and n.func.attr == 'clone' and \
+                        any(k.arg == 'retain_cache' for k in n.keywords):
+                    listed += 1
+        if total != listed:
+            raise Untranslatable('%d calls clone(retain_cache=True) in the package, %d in the analysed methods' % (total, listed))
+    finally:
+        SUBJ[0] = 'self'
+        SPEC.clear()
+    return out
 
 
 def collect():
@@ -416,10 +531,13 @@ def collect():
                     raise Untranslatable('_set_values_: the cache branch `if %s` was not found' % test)
                 for tag, val in (('@full', False), ('@retain', True)):
                     SPEC[test] = val
+                    if val:
+                        SPEC['mask is not None'] = False      # implied by the branch taken
                     try:
                         table.append((cls or 'Qube', name + tag, analyse(fn)))
                     finally:
                         SPEC.clear()
+    table += collect_derived(ast.parse(open(os.path.join(REPO, 'polymath', 'qube.py')).read()))
     return table
 
 
@@ -451,7 +569,7 @@ def generate(out_path=None):
             if tuple(p) not in seen:
                 seen.add(tuple(p))
                 ps.append(p)
-        ident = 'fn_%s_%s' % (cls, name.strip('_').replace('_@', '_at_').replace('@', '_at_'))
+        ident = 'fn_%s_%s' % (cls, name.replace('derived:', 'derived_').strip('_').replace('_@', '_at_').replace('@', '_at_'))
         names.append(ident)
         npaths += len(ps)
         lines.append('Definition %s : fn := mkfn "%s" "%s" [' % (ident, cls, name))
